@@ -282,12 +282,13 @@ def _reverse_shard(args):
             continue
         ch = chr(cp)
         for enc in encodings:
+            mismatch = False
             try:
-                if ch.encode(enc).decode(enc) != ch:
-                    # the codec itself does not round-trip this character (Python's shift_jis maps U+00A2 to the bytes
-                    # it decodes as U+FFE0): nothing the serializer could do about it; codec correctness is assumed
-                    res["codec_not_roundtrip"] = res.get("codec_not_roundtrip", 0) + 1
-                    continue
+                import webencodings
+                w = webencodings.lookup(enc)
+                # the serializer encodes with the Python codec registered under the label, the parser decodes with the
+                # WHATWG encoding of that label: for shift_jis these are different tables (Python shift_jis vs windows-31j)
+                mismatch = w is not None and w.codec_info.decode(ch.encode(enc))[0] != ch
             except (UnicodeError, LookupError):
                 pass
             for where in ("text", "attr"):
@@ -296,6 +297,8 @@ def _reverse_shard(args):
                 r = judge_reverse(text, enc, where)
                 if r is not None:
                     cls = "reverse:%s:%s" % (where, "C1" if 0x80 <= cp <= 0x9F else ("ctl" if cp < 0x20 else "other"))
+                    if mismatch and not 0x80 <= cp <= 0x9F:      # (the C1 range has its own, older finding)
+                        cls = "reverse:codec-mismatch:%s" % enc
                     res["viol"].setdefault(cls, ({"kind": "reverse", "encoding": enc, "where": where}, text, r))
     return res
 
